@@ -319,7 +319,7 @@ func canonFull(in canonIn) tr.E {
 		c = cls
 	}
 	return tr.E{"ev": "CanonFull", "g": in.G, "pi": pi, "classes": c, "perm": f.Perm, "orbits": f.Orbits, "gens": f.Gens,
-		"reused": false, "fresh": f, "bf": in.G.N <= 8, "res": res, "known": known}
+		"reused": false, "fresh": f, "bf": in.G.N <= 8, "res": res, "known": known, "order": in.Order}
 }
 
 // canonReuse pushes a sequence of graphs through ONE storage / partition pair and, for each, also makes a fresh call.
@@ -355,7 +355,7 @@ func canonReuse(w *tr.W, in canonIn) {
 			ec = cls
 		}
 		w.Emit(tr.E{"ev": "CanonFull", "g": gj, "pi": identity(gj.N), "classes": ec, "perm": reused.Perm, "orbits": reused.Orbits,
-			"gens": reused.Gens, "reused": true, "fresh": fresh, "bf": gj.N <= 8, "res": res, "known": [][]int{}})
+			"gens": reused.Gens, "reused": true, "fresh": fresh, "bf": gj.N <= 8, "res": res, "known": [][]int{}, "order": 0})
 		if res != "ok" {
 			return
 		}
@@ -743,35 +743,24 @@ func canonGrid(c *Ctx, prop string) []canonIn {
 	}
 	// disjoint unions of cycles and their complements (same automorphism group): rotations and reflections of every cycle and swaps of
 	// equal cycles are known; one cell that refinement cannot split, orbits of different sizes in it (the family of defect 533abb7)
-	for _, lens := range [][]int{{3, 4, 5, 5}, {3, 5, 5, 6}, {4, 5, 6, 7}, {5, 6, 7, 8}, {7, 8, 9}, {3, 3, 4, 4, 6}, {5, 5, 5, 5, 5, 5}, {3, 3, 3, 4, 4, 9}} {
-		n := 0
-		u := gJ{N: 0}
-		known := [][]int{}
-		offs := []int{}
-		for _, l := range lens {
-			offs = append(offs, n)
-			u = disjointUnion(u, gJOf(graph.Cycle(l)))
-			n += l
+	for _, lens := range [][]int{{3, 4, 4}, {3, 3, 4}, {4, 5, 5}, {5, 5, 6}, {3, 4, 5, 5}, {3, 5, 5, 6}, {4, 5, 6, 7}, {5, 6, 7, 8}, {7, 8, 9}, {3, 3, 4, 4, 6}, {5, 5, 5, 5, 5, 5}, {3, 3, 3, 4, 4, 9}} {
+		u, known, order := cycleUnion(lens)
+		n := u.N
+		limit := 5000 // the acceptor closes the returned generators under composition: only for groups it can enumerate
+		if big {
+			limit = 15000
 		}
-		for k, l := range lens {
-			rot, refl := identity(n), identity(n)
-			for i := 0; i < l; i++ {
-				rot[offs[k]+i] = offs[k] + (i+1)%l
-				refl[offs[k]+i] = offs[k] + (l-i)%l
-			}
-			known = append(known, rot, refl)
-			if k > 0 && lens[k-1] == l {
-				sw := identity(n)
-				for i := 0; i < l; i++ {
-					sw[offs[k]+i], sw[offs[k-1]+i] = offs[k-1]+i, offs[k]+i
-				}
-				known = append(known, sw)
-			}
+		if order > limit {
+			order = 0
 		}
 		co := gJOf(graph.ComplementDense(graphOfJ("dense", u)))
 		for t := 0; t < 3; t++ {
-			add(canonIn{Kind: "full", Name: "cycles", G: u, Known: known, Rep: []string{"dense", "sparse"}[t%2], Pi: r.Perm(n)})
-			add(canonIn{Kind: "full", Name: "co-cycles", G: co, Known: known, Rep: []string{"sparse", "dense"}[t%2], Pi: r.Perm(n)})
+			o := order
+			if t > 0 && order > 1000 {
+				o = 0
+			}
+			add(canonIn{Kind: "full", Name: "cycles", G: u, Known: known, Order: o, Rep: []string{"dense", "sparse"}[t%2], Pi: r.Perm(n)})
+			add(canonIn{Kind: "full", Name: "co-cycles", G: co, Known: known, Order: o, Rep: []string{"sparse", "dense"}[t%2], Pi: r.Perm(n)})
 		}
 	}
 	// reuse: every (previous kind and size) -> (next kind and size) pair through one storage, with and without vertex classes
